@@ -21,7 +21,10 @@ SWEEP_STAGES = ['| json', '| json a, ids, obj', '| json x="a", y="obj.list[0]", 
                 '| pattern "<a> <b>"', '| pattern "<_>=<v>"', '| decolorize', '| line_format "{{ .a }}/{{ __line__ }}"', '| label_format z="{{ .a | ToUpper }}"', '|= ip("10.0.0.0/8")',
                 '!= ip("::1")', '| json | a > 1', '| line_format "{{ repeat 1000000000000 \\"x\\" }}"', '| line_format "{{ indent 1000000000000 .app }}"',
                 '| line_format "{{ alignLeft 1000000000000 .app }}"', '| label_format z="{{ alignRight 999999999999 .app }}"', '| line_format "{{ repeat (int .n) \\"-\\" }}"',
-                '| line_format "{{ repeat -1 \\"x\\" }}"', '| label_format z="{{ nindent (int .n) .app }}"', '| json | drop a | keep b', '| json | distinct a', '| json | a == ip("10.0.0.1")', '| logfmt | a > 5KB or b < 1m']
+                '| line_format "{{ repeat -1 \\"x\\" }}"', '| label_format z="{{ nindent (int .n) .app }}"', '| json | drop a | keep b', '| json | distinct a', '| json | a == ip("10.0.0.1")', '| logfmt | a > 5KB or b < 1m',
+                # stages naming labels no record has (rename of an absent source, format into / out of absent labels, drop / keep / distinct of absent labels)
+                '| label_format dst=nosuch', '| label_format app=nosuch, z="{{ .app }}"', '| label_format nosuch2=nosuch | line_format "{{ .nosuch2 }}"', '| drop nosuch | keep nosuch2',
+                '| distinct nosuch', '| nosuch = "" | nosuch2 != ""', '| label_format dst=nosuch | json', '| line_format "{{ .nosuch | ToUpper }}"']
 HOSTILE_VALUES = ["1000000000000", "9223372036854775807", "NaN", "+Inf", "-Inf", "1e999", "-1e999", "0x10", "1_0", "", " ", "9" * 30, "-0", "1e-400", "99999999999999999999h", "1.5.5", "5XB", "١٢٣", "\x00"]
 BAD_QUERIES = [
     ('{a="b"} |~ "("', True), ('{a=~"["}', True), ('{a="b"} | regexp "(?P<x>"', True), ('{a="b"} | regexp "no_named_group"', False),
